@@ -43,6 +43,21 @@ theorem prep_agrees {w : World} {pred : HState} {rp : RState} (ag : Agrees w.hea
     exact ⟨ag, nd (by rw [← ag.volatile]; exact hv)⟩
   · exact ⟨ag.clone lt, cloneState_nodup _ _⟩
 
+/-- preparing the input state writes no existing cell -/
+theorem prep_frame (w : World) (pred : HState) : ∀ a, a < w.heap.next → (prep w pred).1.heap.cells a = w.heap.cells a := by
+  intro a ha
+  unfold prep
+  split
+  · rfl
+  · exact (cloneState_ext w.heap pred).frame a ha
+
+/-- the input state of a command after a non-volatile predecessor is made of new cells -/
+theorem prep_fresh {w : World} {pred : HState} (hv : (w.heap.metaAt pred.md).volatile = false) :
+    ∀ a ∈ cellsState (prep w pred).1.heap (prep w pred).2, w.heap.next ≤ a := by
+  intro a ha
+  simp only [prep, hv] at ha
+  exact (cloneState_cells w.heap pred a ha).1
+
 /-- what a result must satisfy -/
 def ResOK (d : List (Str × Val)) (h : Heap) (acts : List Act) : Res → Prop
   | .fail => True
@@ -156,19 +171,42 @@ theorem eval_sound (hC : Closed P) (hK : KeyOK d P) (hS : Safe d P) (n : Nat) :
             | some args =>
               rw [evalChain_finish hL hl hp ha] at h
               obtain ⟨m2, hra⟩ := oka
-              have hce := gA.cells_eq (g2.own.rng _ (md_mem_cellsState _ (prep w1 pred).2)).2
-              rw [← hce] at g3
+              have hce := gA.cells_eq
+                (g2.own.rng _ (List.mem_append.2 (Or.inr (md_mem_cellsState _ (prep w1 pred).2)))).2
+              have g3' : Good w w3 (cmdFoot w3.heap (prep w1 pred).2 (w1.heap.metaAt pred.md).vars args) :=
+                g3.sub_right (fun a ha => by
+                  rcases mem_cmdFoot.1 ha with h1 | ⟨v, hv, h1⟩ | h1
+                  · rw [hce] at h1
+                    exact List.mem_append.2 (Or.inl (List.mem_append.2 (Or.inr h1)))
+                  · exact List.mem_append.2 (Or.inr (by simp only [argCells, List.mem_flatMap]; exact ⟨v, hv, h1⟩))
+                  · exact List.mem_append.2 (Or.inl (List.mem_append.2 (Or.inl (by simp [mem_cellsState, h1])))))
+              have oldlt : ∀ x ∈ cellsState (prep w1 pred).1.heap (prep w1 pred).2, x < (prep w1 pred).1.heap.next :=
+                fun x hx => (g2.own.rng x (List.mem_append.2 (Or.inr hx))).2
               have ag3 : Agrees w3.heap (prep w1 pred).2 rp :=
-                ag2.congr (fun x hx => gA.post.frame x (g2.own.rng x hx).2)
+                ag2.congr (fun x hx => gA.post.frame x (oldlt x hx))
               have nd3 : (cellsState w3.heap (prep w1 pred).2).Nodup := by rw [hce]; exact nd2
               have dj : ∀ a ∈ cellsState w3.heap (prep w1 pred).2, ∀ v ∈ args, a ∉ cellsHV v := by
                 intro a ha v hv hx
                 rw [hce] at ha
-                have h1 := (g2.own.rng a ha).2
+                have h1 := oldlt a ha
                 have h2 := (gA.own.rng a (by simp only [argCells, List.mem_flatMap]; exact ⟨v, hv, hx⟩)).1
                 aomega
+              -- the context's variables: the objects of the predecessor, unchanged since it was returned
+              have ctxlt : ∀ x ∈ cellsVars (w1.heap.metaAt pred.md).vars, x < w1.heap.next :=
+                fun x hx => (g1.own.rng x (by simp [mem_cellsState, hx])).2
+              have hctx : absVars w3.heap (w1.heap.metaAt pred.md).vars = rp.vars := by
+                rw [← agp.vars]
+                refine absVars_congr (fun x hx => ?_)
+                rw [gA.post.frame x (Nat.lt_of_lt_of_le (ctxlt x hx) s2.mod.mono), prep_frame w1 pred x (ctxlt x hx)]
+              have cj : rp.volatile = false → ∀ a ∈ cellsVars (w1.heap.metaAt pred.md).vars,
+                  a ∉ cellsState w3.heap (prep w1 pred).2 := by
+                intro hnv a ha hx
+                rw [hce] at hx
+                have h1 := ctxlt a ha
+                have h2 := prep_fresh (agp.volatile.trans hnv) a hx
+                aomega
               have fs := finish_sound (key := keyOf absolute acts) (pvol := (w1.heap.metaAt pred.md).volatile)
-                (name := act.name) sw3 g3.inv g3.own ag3 agp.volatile nd3 dj
+                (name := act.name) sw3 g3'.inv g3'.own ag3 agp.volatile nd3 dj hctx cj
                 (fun r' hr' => ⟨absolute, acts, max m1 m2 + 1, hP, rfl, by
                   rw [refChain_succ hl, predRef_mono hpr (Nat.le_max_left m1 m2), Option.bind_some,
                     refArgs_mono hra (Nat.le_max_right m1 m2), Option.bind_some]
